@@ -8,12 +8,17 @@ CONSTANTS IDs,            \* record IDs the environment may use (subset of 0..0x
           MaxRecs, MaxMods, MaxRounds,
           G_Compare,      \* console compares addition/erase time stamps after the walk
           G_KeyByOwnID,   \* result keyed by the record's own ID (header), not the requested one
-          G_Reserve       \* console passes its reservation and BMC enforces it on partial reads
+          G_Reserve,      \* console passes its reservation and BMC enforces it on partial reads
+          MaxFaults,      \* transient faults (lost reply, refusal) the environment may inject into console steps
+          Stamps,         \* possible initial <<addition, erase>> time stamps (they need not be equal: a BMC that lost its clock)
+          G_FreshMap,     \* every attempt collects into a fresh map (FALSE: one map shared by all attempts)
+          G_CompareEach   \* each time stamp compared with its own earlier value (FALSE: only the later of the two)
 LAST == 65535
 
 VARIABLES recs, resv, resvCtr, tAdd, tErase, mods, verCtr,       \* BMC
-          pc, round, t0, myResv, reqID, acc, hdr, nextID, result  \* console
-vars == <<recs, resv, resvCtr, tAdd, tErase, mods, verCtr, pc, round, t0, myResv, reqID, acc, hdr, nextID, result>>
+          pc, round, t0, myResv, reqID, acc, hdr, nextID, result, \* console
+          faults
+vars == <<recs, resv, resvCtr, tAdd, tErase, mods, verCtr, pc, round, t0, myResv, reqID, acc, hdr, nextID, result, faults>>
 
 Idx(id) == IF id = 0 /\ Len(recs) > 0 THEN 1
            ELSE IF \E i \in 1..Len(recs) : recs[i].id = id THEN CHOOSE i \in 1..Len(recs) : recs[i].id = id ELSE 0
@@ -22,18 +27,18 @@ Fulls(rs) == { [key |-> rs[i].id, id |-> rs[i].id, ver |-> rs[i].ver] : i \in {j
 
 InitRepos == { rs \in UNION { [1..n -> [id : IDs, full : BOOLEAN, ver : {0}]] : n \in 1..MaxRecs } :
                  \A i, j \in 1..Len(rs) : i # j => rs[i].id # rs[j].id }
-Init == /\ recs \in InitRepos /\ resv = 0 /\ resvCtr = 0 /\ tAdd = 1 /\ tErase = 1 /\ mods = 0 /\ verCtr = 0
+Init == /\ recs \in InitRepos /\ resv = 0 /\ resvCtr = 0 /\ (\E st \in Stamps : tAdd = st[1] /\ tErase = st[2]) /\ mods = 0 /\ verCtr = 0 /\ faults = 0
         /\ pc = "info1" /\ round = 1 /\ t0 = <<0, 0>> /\ myResv = 0 /\ reqID = 0 /\ acc = {} /\ hdr = [id |-> 0, full |-> FALSE, ver |-> 0]
         /\ nextID = 0 /\ result = "none"
 
 \* ------------------------------------------------------------ environment
-UnchangedConsole == UNCHANGED <<pc, round, t0, myResv, reqID, acc, hdr, nextID, result>>
+UnchangedConsole == UNCHANGED <<pc, round, t0, myResv, reqID, acc, hdr, nextID, result, faults>>
 Running == pc \notin {"done", "failed"}
 AddRec == /\ Running /\ mods < MaxMods /\ Len(recs) < MaxRecs
           /\ \E id \in IDs, f \in BOOLEAN, pos \in 0..Len(recs) :
                /\ \A i \in 1..Len(recs) : recs[i].id # id
                /\ recs' = SubSeq(recs, 1, pos) \o << [id |-> id, full |-> f, ver |-> verCtr + 1] >> \o SubSeq(recs, pos + 1, Len(recs))
-          /\ verCtr' = verCtr + 1 /\ tAdd' = tAdd + 1 /\ resv' = 0 /\ mods' = mods + 1
+          /\ verCtr' = verCtr + 1 /\ tAdd' = tAdd + 1 /\ resv' \in {0, resv} /\ mods' = mods + 1      \* 33.11.2: an addition may keep reservations
           /\ UNCHANGED <<resvCtr, tErase>> /\ UnchangedConsole
 DelRec == /\ Running /\ mods < MaxMods /\ Len(recs) > 0
           /\ \E i \in 1..Len(recs) : recs' = SubSeq(recs, 1, i - 1) \o SubSeq(recs, i + 1, Len(recs))
@@ -43,15 +48,16 @@ LoseResv == /\ Running /\ mods < MaxMods /\ resv # 0 /\ resv' = 0 /\ mods' = mod
             /\ UNCHANGED <<recs, resvCtr, tAdd, tErase, verCtr>> /\ UnchangedConsole
 
 \* ---------------------------------------------------------------- console
-UnchangedBmc == UNCHANGED <<recs, resv, resvCtr, tAdd, tErase, mods, verCtr>>
+UnchangedBmc == UNCHANGED <<recs, resv, resvCtr, tAdd, tErase, mods, verCtr, faults>>
+Later(a, b) == IF a > b THEN a ELSE b
 Fail == IF round < MaxRounds
         THEN /\ pc' = "info1" /\ round' = round + 1 /\ result' = result
         ELSE /\ pc' = "failed" /\ round' = round /\ result' = "error"
-Info1 == /\ pc = "info1" /\ t0' = <<tAdd, tErase>> /\ pc' = "reserve" /\ acc' = {}
+Info1 == /\ pc = "info1" /\ t0' = <<tAdd, tErase>> /\ pc' = "reserve" /\ acc' = IF G_FreshMap THEN {} ELSE acc
          /\ UNCHANGED <<round, myResv, reqID, hdr, nextID, result>> /\ UnchangedBmc
 Reserve == /\ pc = "reserve" /\ resvCtr' = resvCtr + 1 /\ resv' = resvCtr + 1 /\ myResv' = resvCtr + 1
            /\ reqID' = 0 /\ pc' = "hdr"
-           /\ UNCHANGED <<recs, tAdd, tErase, mods, verCtr, round, t0, acc, hdr, nextID, result>>
+           /\ UNCHANGED <<recs, tAdd, tErase, mods, verCtr, round, t0, acc, hdr, nextID, result, faults>>
 \* header read at offset 0: a stale reservation may or may not be refused
 HdrRead == /\ pc = "hdr" /\ UnchangedBmc
            /\ LET i == Idx(reqID) IN
@@ -73,10 +79,15 @@ Advance == /\ pc = "advance" /\ UnchangedBmc
            /\ reqID' = nextID /\ pc' = IF nextID = LAST THEN "info2" ELSE "hdr"
            /\ UNCHANGED <<round, t0, myResv, acc, hdr, nextID, result>>
 Info2 == /\ pc = "info2" /\ UnchangedBmc
-         /\ IF G_Compare /\ (t0[1] < tAdd \/ t0[2] < tErase)
+         /\ IF G_Compare /\ (IF G_CompareEach THEN (t0[1] < tAdd \/ t0[2] < tErase) ELSE Later(t0[1], t0[2]) < Later(tAdd, tErase))
             THEN Fail /\ UNCHANGED <<t0, myResv, reqID, acc, hdr, nextID>>
             ELSE /\ pc' = "done" /\ result' = "ok" /\ UNCHANGED <<round, t0, myResv, reqID, acc, hdr, nextID>>
-Next == AddRec \/ DelRec \/ LoseResv \/ Info1 \/ Reserve \/ HdrRead \/ BodyRead \/ Advance \/ Info2
+\* a transient fault in any request of the walk (a lost reply is a transport error inside a session; a refusal): the
+\* attempt is abandoned and the outer retry of RetrieveSDRRepository starts over
+Fault == /\ pc \in {"info1", "reserve", "hdr", "body", "info2"} /\ faults < MaxFaults
+         /\ faults' = faults + 1 /\ Fail
+         /\ UNCHANGED <<recs, resv, resvCtr, tAdd, tErase, mods, verCtr, t0, myResv, reqID, acc, hdr, nextID>>
+Next == AddRec \/ DelRec \/ LoseResv \/ Info1 \/ Reserve \/ HdrRead \/ BodyRead \/ Advance \/ Info2 \/ Fault
 Spec == Init /\ [][Next]_vars
 
 \* ------------------------------------------------------------- properties
